@@ -217,7 +217,7 @@ func (w *World) AddPublisher(keyIdx int, discovery bool, handlerPath string) *Pu
 	p.Pub = pub
 	p.Addr = multiaddr.StringCast(addr)
 	if handlerPath != "" {
-		p.Addr = multiaddr.StringCast(addr + "/http-path/" + strings.ReplaceAll(strings.Trim(handlerPath, "/"), "/", "%2F"))
+		p.Addr = multiaddr.StringCast(addr + "/http-path/" + url.QueryEscape(strings.Trim(handlerPath, "/")))
 	}
 	l := w.net.Listen(p.HostPort)
 	srv := &http.Server{Handler: p}
